@@ -1,8 +1,282 @@
-//! C16 correspondence streams (stub).
-use crate::util::Opts;
+//! C16: OAM DMA. One scenario per line on a real `MemoryAreas` (pattern ROM, RAM regions pre-filled with a formula the
+//! Lean driver reproduces): bus writes (`w:addr:value`, incl. the DMA register 0xFF46, source bytes, bank registers)
+//! and catch-up batches (`b:clocks`, the real `MemoryAreas::run_clock_cycles`).
+//!
+//! c16 type=T rom=R ram=M banks=B ramb=RB ev=w:a:v,b:n,... | r=<one record per batch, ';'-separated> fd=<digest of all RAM outside OAM at the end>
+//!   record = ab:pb:sb:aa:pa:oam0:src:oam1:d0:d1
+//!     ab/aa  DMA active before/after the batch (oam_dma is Some), pb/pa progress (current_offset, 160 when finished or idle),
+//!     sb     source address in the DMA state before the batch (hook DMAState::verif_state), 0 when idle
+//!     oam0/oam1  the 160 OAM bytes before/after, src = the 160 bytes at XX00..XX9F read through memory_read_byte just
+//!     before the batch (XX = last byte written to 0xFF46; empty before the first DMA), d0/d1 digest of VRAM, cartridge
+//!     RAM, WRAM, HRAM and IE before/after.
+//! c16.inv type=.. pre=N page=XX segs=gap:addr:value,... part=<random split of every gap> |
+//!     of= oc= or= (final OAM when every gap is split into 4-clock batches / run as one batch / split as `part`)
+//!     df= dc= dr= (digests of the other RAM) pf= pc= pr= (progress, 160 = finished)
+use crate::mem::{memory_read_byte, memory_write_byte, MemoryAreas};
+use crate::roms::*;
+use crate::timing::ClockCycles;
+use crate::util::{hex, Opts, Rng};
 use std::io::Write;
 
-pub fn run(sub: &str, _opts: &Opts, _w: &mut dyn Write) {
-  eprintln!("stream c16.{} not implemented", sub);
-  std::process::exit(2);
+#[derive(Clone, Copy)]
+pub enum Ev { W(u16, u8), B(usize) }
+
+pub fn prefill(mem: &mut MemoryAreas) {
+  for i in 0..mem.video_ram.len() { mem.video_ram[i] = rom_byte(0x8000 + i + 12345); }
+  for i in 0..mem.cart_ram.len() { mem.cart_ram[i] = rom_byte(i + 54321); }
+  for i in 0..mem.work_ram.len() { mem.work_ram[i] = rom_byte(0xc000 + i + 12345); }
+  for i in 0..mem.oam_ram.len() { mem.oam_ram[i] = rom_byte(0xfe00 + i + 12345); }
+  for i in 0..mem.high_ram.len() { mem.high_ram[i] = rom_byte(0xff80 + i + 12345); }
+}
+
+/// every RAM byte outside OAM and outside the I/O window (whose timer/LCD registers advance with time)
+pub fn other_digest(mem: &MemoryAreas) -> u64 {
+  let mut h = FNV0;
+  for b in mem.video_ram.iter() { h = fnv(h, *b); }
+  for b in mem.cart_ram.iter() { h = fnv(h, *b); }
+  for b in mem.work_ram.iter() { h = fnv(h, *b); }
+  for b in mem.high_ram.iter() { h = fnv(h, *b); }
+  h = fnv(h, mem.io.interrupt_mask | mem.io.interrupt_mask_upper);
+  h
+}
+
+fn dma_state(mem: &MemoryAreas) -> (u8, usize, usize) {
+  match mem.oam_dma {
+    Some(d) => { let (s, o) = d.verif_state(); (1, o as usize, s) },
+    None => (0, 160, 0),
+  }
+}
+
+fn read_page(p: *mut MemoryAreas, page: u8) -> Vec<u8> {
+  (0..160u16).map(|i| memory_read_byte(p, ((page as u16) << 8) + i)).collect()
+}
+
+/// runs the events on a fresh cartridge; returns the batch records and the final (oam, digest, progress)
+pub fn run_events(t: u8, r: u8, m: u8, evs: &[Ev], records: bool) -> (Vec<String>, Vec<u8>, u64, usize) {
+  let mut mem = mk_mem(t, r, m, &[]);
+  prefill(&mut mem);
+  let p = &mut mem as *mut MemoryAreas;
+  let mut page: Option<u8> = None;
+  let mut recs = Vec::new();
+  for ev in evs.iter() {
+    match *ev {
+      Ev::W(a, v) => { memory_write_byte(p, a, v); if a == 0xff46 { page = Some(v); } },
+      Ev::B(n) => {
+        if records {
+          let (ab, pb, sb) = dma_state(&mem);
+          let oam0 = hex(&mem.oam_ram);
+          let src = match page { Some(pg) => hex(&read_page(p, pg)), None => String::new() };
+          let d0 = other_digest(&mem);
+          mem.run_clock_cycles(ClockCycles(n));
+          let (aa, pa, _) = dma_state(&mem);
+          recs.push(format!("{}:{}:{}:{}:{}:{}:{}:{}:{}:{}", ab, pb, sb, aa, pa, oam0, src, hex(&mem.oam_ram), d0, other_digest(&mem)));
+        } else {
+          mem.run_clock_cycles(ClockCycles(n));
+        }
+      },
+    }
+  }
+  let (_, pa, _) = dma_state(&mem);
+  let oam = mem.oam_ram.to_vec();
+  let d = other_digest(&mem);
+  (recs, oam, d, pa)
+}
+
+pub fn ev_string(evs: &[Ev]) -> String {
+  let v: Vec<String> = evs.iter().map(|e| match *e { Ev::W(a, v) => format!("w:{}:{}", a, v), Ev::B(n) => format!("b:{}", n) }).collect();
+  v.join(",")
+}
+
+pub const QUICK_PAGES: [u8; 40] = [
+  0x00, 0x01, 0x1f, 0x20, 0x3f, 0x40, 0x41, 0x5f, 0x60, 0x7f, 0x80, 0x81, 0x97, 0x9f, 0xa0, 0xa7, 0xa8, 0xb0, 0xbf, 0xc0,
+  0xc1, 0xcf, 0xd0, 0xdf, 0xe0, 0xe1, 0xef, 0xf0, 0xfd, 0xfe, 0xff, 0x13, 0x2a, 0x55, 0x6b, 0x8c, 0xb5, 0xca, 0xd9, 0xf7,
+];
+
+pub const CFGS: [(u8, u8, u8); 6] = [(0x00, 0, 0), (0x03, 2, 3), (0x13, 4, 3), (0x03, 0, 1), (0x01, 1, 0), (0x13, 0x52, 4)];
+
+const SIZES: [usize; 14] = [4, 8, 12, 16, 20, 40, 100, 156, 160, 320, 636, 640, 644, 1000];
+
+/// a write between two batches: pending / already copied source byte, unrelated RAM, bank switch, or a restart
+fn gen_between(rng: &mut Rng, page: &mut u8, prog: &mut usize, evs: &mut Vec<Ev>) {
+  let base = (*page as u16) << 8;
+  let safe = |off: u16, page: u8| -> u16 { if page == 0xff && (off == 0x46 || off == 0x02) { off + 1 } else { off } };
+  match rng.below(8) {
+    0 | 1 => { // a source byte that is still to be copied
+      let off = if *prog < 160 { *prog as u16 + rng.below((160 - *prog) as u64) as u16 } else { rng.below(160) as u16 };
+      evs.push(Ev::W(base + safe(off, *page), rng.u8()));
+    },
+    2 => { // a source byte that has been copied already
+      let off = if *prog > 0 { rng.below(*prog as u64) as u16 } else { 0 };
+      evs.push(Ev::W(base + safe(off, *page), rng.u8()));
+    },
+    3 => { // RAM that is neither source nor destination
+      let a = *rng.pick(&[0x8000u16, 0x9fff, 0xa000, 0xbfff, 0xc000, 0xdfff, 0xff80, 0xfffe, 0xffff, 0xfea0, 0xe000]);
+      evs.push(Ev::W(a, rng.u8()));
+    },
+    4 => { evs.push(Ev::W(*rng.pick(&[0x2000u16, 0x3fff, 0x2100]), rng.u8())); },
+    5 => { evs.push(Ev::W(*rng.pick(&[0x4000u16, 0x5fff, 0x6000, 0x0000]), rng.below(4) as u8 | if rng.chance(1, 4) { 0x0a } else { 0 })); },
+    6 => { // the destination itself
+      evs.push(Ev::W(0xfe00 + rng.below(160) as u16, rng.u8()));
+    },
+    _ => { // restart with a new page
+      let np = match rng.below(3) { 0 => *page, 1 => *rng.pick(&QUICK_PAGES), _ => rng.u8() };
+      evs.push(Ev::W(0xff46, np));
+      *page = np; *prog = 0;
+    },
+  }
+}
+
+pub fn gen_scenario(rng: &mut Rng, page0: u8, style: u64) -> Vec<Ev> {
+  let mut evs = Vec::new();
+  // idle time first: no DMA is active, nothing may change; also moves the LCD/timer phase
+  if rng.chance(1, 2) { evs.push(Ev::B(4 * rng.below(300) as usize)); }
+  if (0x40..0x80).contains(&page0) || rng.chance(1, 6) {
+    evs.push(Ev::W(0x2000, rng.u8()));
+    if rng.chance(1, 2) { evs.push(Ev::W(0x4000, rng.below(4) as u8)); }
+    if rng.chance(1, 3) { evs.push(Ev::W(0x6000, 1)); }
+  }
+  if (0xa0..0xc0).contains(&page0) || rng.chance(1, 6) {
+    evs.push(Ev::W(0x4000, rng.below(4) as u8));
+    if rng.chance(1, 2) { evs.push(Ev::W(0x6000, 1)); }
+  }
+  let mut page = page0;
+  let mut prog = 0usize;
+  evs.push(Ev::W(0xff46, page));
+  let total = 640 + *rng.pick(&[0usize, 4, 40, 360]);
+  let mut t = 0usize;
+  let fixed = *rng.pick(&[8usize, 12, 16, 28, 156, 320, 636]);
+  let mut restarts = 0;
+  while t < total {
+    let n = match style {
+      0 => total,
+      1 => 4,
+      2 => *rng.pick(&SIZES),
+      _ => fixed,
+    };
+    evs.push(Ev::B(n));
+    t += n;
+    prog = (prog + n / 4).min(160);
+    let between = match style { 0 => false, 1 => rng.chance(1, 12), _ => rng.chance(1, 3) };
+    if between && t < total {
+      let before = page; let pb = prog;
+      gen_between(rng, &mut page, &mut prog, &mut evs);
+      if prog == 0 && (pb != 0 || before != page) { restarts += 1; if restarts <= 2 { t = 0; } }
+    }
+  }
+  // a finished DMA stays finished
+  evs.push(Ev::B(*rng.pick(&[4usize, 16, 640])));
+  evs
+}
+
+fn split_gap(rng: &mut Rng, gap: usize) -> Vec<usize> {
+  let mut v = Vec::new();
+  let mut left = gap;
+  while left > 0 {
+    let n = (*rng.pick(&SIZES)).min(left);
+    v.push(n); left -= n;
+  }
+  v
+}
+
+fn kv<'a>(line: &'a str, key: &str) -> &'a str {
+  let pat = format!("{}=", key);
+  for tok in line.split(' ') { if tok == "|" { break; } if let Some(v) = tok.strip_prefix(pat.as_str()) { return v; } }
+  ""
+}
+fn num(s: &str) -> usize { s.parse().unwrap_or(0) }
+
+fn inv_case(t: u8, r: u8, m: u8, pre: usize, page: u8, segs: &[(usize, u16, u8)], tail: usize, part: &[Vec<usize>], w: &mut dyn Write) {
+  let build = |mode: u8| -> Vec<Ev> {
+    let mut evs = Vec::new();
+    if pre > 0 { evs.push(Ev::B(pre)); }
+    evs.push(Ev::W(0xff46, page));
+    for (k, g) in segs.iter().map(|s| s.0).chain(std::iter::once(tail)).enumerate() {
+      match mode {
+        0 => { for _ in 0..g / 4 { evs.push(Ev::B(4)); } },
+        1 => evs.push(Ev::B(g)),
+        _ => { for n in part[k].iter() { evs.push(Ev::B(*n)); } },
+      }
+      if k < segs.len() { evs.push(Ev::W(segs[k].1, segs[k].2)); }
+    }
+    evs
+  };
+  let (_, of, df, pf) = run_events(t, r, m, &build(0), false);
+  let (_, oc, dc, pc) = run_events(t, r, m, &build(1), false);
+  let (_, or, dr, pr) = run_events(t, r, m, &build(2), false);
+  let ss: Vec<String> = segs.iter().map(|(g, a, v)| format!("{}:{}:{}", g, a, v)).collect();
+  let ps: Vec<String> = part.iter().map(|p| p.iter().map(|n| n.to_string()).collect::<Vec<_>>().join("+")).collect();
+  writeln!(w, "c16.inv type={} rom={} ram={} banks={} ramb={} pre={} page={} segs={} tail={} part={} | of={} oc={} or={} df={} dc={} dr={} pf={} pc={} pr={}",
+    t, r, m, rom_bank_count(r), header(t, r, m).get_ram_size_bytes(), pre, page, ss.join(","), tail, ps.join(","),
+    hex(&of), hex(&oc), hex(&or), df, dc, dr, pf, pc, pr).unwrap();
+}
+
+fn main_case(t: u8, r: u8, m: u8, evs: &[Ev], w: &mut dyn Write) {
+  let (recs, _, fd, _) = run_events(t, r, m, evs, true);
+  writeln!(w, "c16 type={} rom={} ram={} banks={} ramb={} ev={} | r={} fd={}", t, r, m, rom_bank_count(r), header(t, r, m).get_ram_size_bytes(),
+    ev_string(evs), recs.join(";"), fd).unwrap();
+}
+
+/// re-runs exactly the case whose inputs are in `line`
+fn replay(line: &str, w: &mut dyn Write) {
+  let (t, r, m) = (num(kv(line, "type")) as u8, num(kv(line, "rom")) as u8, num(kv(line, "ram")) as u8);
+  if line.starts_with("c16.inv") {
+    let segs: Vec<(usize, u16, u8)> = kv(line, "segs").split(',').filter(|s| !s.is_empty()).map(|s| {
+      let f: Vec<&str> = s.split(':').collect(); (num(f[0]), num(f[1]) as u16, num(f[2]) as u8) }).collect();
+    let part: Vec<Vec<usize>> = kv(line, "part").split(',').map(|p| p.split('+').map(num).collect()).collect();
+    inv_case(t, r, m, num(kv(line, "pre")), num(kv(line, "page")) as u8, &segs, num(kv(line, "tail")), &part, w);
+  } else {
+    let evs: Vec<Ev> = kv(line, "ev").split(',').filter(|s| !s.is_empty()).map(|s| {
+      let f: Vec<&str> = s.split(':').collect();
+      if f[0] == "w" { Ev::W(num(f[1]) as u16, num(f[2]) as u8) } else { Ev::B(num(f[1])) } }).collect();
+    main_case(t, r, m, &evs, w);
+  }
+}
+
+pub fn run(sub: &str, opts: &Opts, w: &mut dyn Write) {
+  if let Some(line) = opts.get("replay-line") {
+    if opts.shard().0 == 0 && line.starts_with("c16.inv") == (sub == "inv") { replay(line, w); }
+    return;
+  }
+  let (shard, nshards) = opts.shard();
+  let pages: Vec<u8> = if opts.thorough { (0..=255u8).collect() } else { QUICK_PAGES.to_vec() };
+  if sub == "inv" {
+    let mut rng = Rng::new(opts.seed ^ 0xc16f);
+    let reps = if opts.thorough { 6 } else { 2 };
+    let mut idx = 0usize;
+    for rep in 0..reps { for &page in pages.iter() {
+      idx += 1;
+      let (t, r, m) = CFGS[(idx + rep) % CFGS.len()];
+      let pre = 4 * rng.below(1200) as usize;
+      // segments: a gap of time, then one write
+      let nseg = rng.below(4) as usize;
+      let mut segs: Vec<(usize, u16, u8)> = Vec::new();
+      let mut prog = 0usize; let mut pg = page;
+      for _ in 0..nseg {
+        let gap = 4 * (1 + rng.below(100)) as usize;
+        prog = (prog + gap / 4).min(160);
+        let mut evs = Vec::new();
+        gen_between(&mut rng, &mut pg, &mut prog, &mut evs);
+        if let Ev::W(a, v) = evs[0] { segs.push((gap, a, v)); }
+      }
+      let tail = 4 * (160 + rng.below(40)) as usize;
+      let mut part: Vec<Vec<usize>> = Vec::new();
+      for (g, _, _) in segs.iter() { part.push(split_gap(&mut rng, *g)); }
+      part.push(split_gap(&mut rng, tail));
+      if idx % nshards != shard { continue; }
+      inv_case(t, r, m, pre, page, &segs, tail, &part, w);
+    }}
+    return;
+  }
+  let mut rng = Rng::new(opts.seed ^ 0xc16);
+  let ncfg = if opts.thorough { 3 } else { 1 };
+  let mut idx = 0usize;
+  for &page in pages.iter() { for style in 0..4u64 { for c in 0..ncfg {
+    idx += 1;
+    // the 160-batch style is long: one configuration per page
+    if style == 1 && c > 0 { continue; }
+    let (t, r, m) = CFGS[(page as usize + style as usize + 2 * c) % CFGS.len()];
+    let evs = gen_scenario(&mut rng, page, style);
+    if idx % nshards != shard { continue; }
+    main_case(t, r, m, &evs, w);
+  }}}
 }
